@@ -216,6 +216,22 @@ pub fn drive(args: &HashMap<String, String>) {
         }
         progs.push(g.program());
     }
+    // fixed bases: a repeated subexpression with one instance two lambdas deep (the common-subexpression pass has to pass
+    // the new variable through both lambdas; cl23+ used to reject such programs, repaired by 0ec9405)
+    {
+        let v = |n: &str| Expr::Var(n.to_string());
+        let pv = |n: &str| Pat::Var(n.to_string());
+        let one = || Expr::Lit(crate::val::V::int(1));
+        let rep = || Expr::Prim(16, vec![v("Q8"), one()]);
+        for deep_body in [rep(), Expr::List(vec![v("Z11"), v("Z12"), rep()])] {
+            let caps: Vec<String> = if matches!(deep_body, Expr::List(_)) { vec!["Q8".into(), "Z11".into()] } else { vec!["Q8".into()] };
+            let inner = Expr::Apply(Box::new(Expr::Lambda(caps, pv("Z12"), Box::new(deep_body))), Box::new(Expr::List(vec![one()])));
+            let outer = Expr::Apply(Box::new(Expr::Lambda(vec!["Q8".into()], pv("Z11"), Box::new(Expr::Prim(4, vec![v("Z11"), inner])))), Box::new(Expr::List(vec![rep()])));
+            progs.push(Program { args: Pat::list(vec![pv("P1"), pv("P2")], Pat::Nil),
+                helpers: vec![Helper::Defun { name: "fun17".into(), pat: Pat::list(vec![pv("Q5"), pv("Q8")], Pat::Nil), body: outer, inline: false }],
+                body: Expr::Call("fun17".into(), vec![v("P1"), v("P2")], None) });
+        }
+    }
     let mut screen = vec![];
     let mut owner = vec![];
     for (i, p) in progs.iter().enumerate() {
